@@ -16,7 +16,7 @@ ID = 'C16'
 LEVEL = 'exploration'
 RUNS = {'quick': 4800}
 BUDGET_S = {'thorough': 600}
-CMD_WEIGHTS = {'filter': 5, 'list': 5, 'connection': 2, 'resume': 1}
+CMD_WEIGHTS = {'filter': 5, 'list': 5, 'connection': 2, 'resume': 1, 'breakpoint': 2}   # breakpoints: a message may be stopped at while the filter hides it
 RULE = ('one evaluation = one simulated session replayed, same seed, under clock epoch 0 / a second epoch in [1, 2^32) and, in the '
         'old printer dialect, with both decimal marks (the clock is the injected fault); inter-message gaps are drawn on the '
         'microsecond lattice around the one-second threshold (999998..1000002) among sub-ms steps and minutes; filters make the '
@@ -63,7 +63,14 @@ def skeleton(rec):
         elif o.kind == 'sep':
             out.append(('sep', None, o.time, None))
         else:
-            out.append(('other', o.text, None, None))
+            text, life = o.text, None
+            if text.startswith(L.STOPPED_PREFIX):
+                # a `Stopped at` notice repeats the message, lifespan included: same last-digit tolerance as on message lines
+                dm = L.DESTROYED_RE.search(text)
+                if dm and dm.group(5) is not None:
+                    life = float(dm.group(5))
+                    text = text[:dm.start(5)] + 'LIFE' + text[dm.end(5):]
+            out.append(('other', text, None, life))
     return out
 
 
